@@ -50,6 +50,17 @@ PROPS = {
         assumptions=["signed zeros do not exist in the R-model: inputs differing only in the sign of zero are covered by the harness stream only",
                      "Euler-angle conversion (Eigen::eulerAngles) and SE3(isometry) are covered by the harness only; SE_K_3<2> exp/log embedding is proved on the closed-form paths (via C02) and by harness elsewhere"],
     ),
+    "C05": dict(
+        tracer_units=["SO3", "SE2"],
+        coq_targets=["Props/Properties_C05.vo"],
+        props_files=["Props/Properties_C05.v"],
+        cone=["Proofs/C05_*.v", "Props/Properties_C05.v"],
+        harnesses=[dict(name="h_c05")],
+        trusted_base=TB_COMMON + ["Coquelicot's is_derive / auto_derive (library proofs)",
+                                  "harness/h_c05.cpp + jacoracle.hpp: long-double oracle Jr(a) = int_0^1 expm(-s ad_a) ds (composite Gauss-Legendre), Hessians by Richardson-extrapolated central differences; polynomial matrix functions with exact derivatives for d_matrix_product / d2_fog"],
+        assumptions=["theorems cover the closed-form paths of SO3 and SE2 (Hessian = derivative of the traced Jacobian, entry by entry, documented layout); SE3, the series paths, d2l_*, d_matrix_product, d2_fog, d2r_rminus* are decided by the oracle harness; Bundles by C06's placement theorem",
+                     "rounding is not modelled"],
+    ),
     "C03": dict(
         tracer_units=GROUP_UNITS,
         coq_targets=["Props/Properties_C03.vo"],
@@ -62,6 +73,12 @@ PROPS = {
 }
 
 MANIFEST_TEXT = {
+    "C05": dict(
+        technique="Coq proof over the regenerated model: Coquelicot auto_derive of every entry of the traced closed-form dr_exp / dr_expinv w.r.t. every tangent coordinate equals the corresponding entry of the traced d2r_exp / d2r_expinv in the documented stacked layout (field with trig atoms); translator validation; long-double Richardson oracle harness",
+        text="For SO3 and SE2 and every tangent vector on the closed-form side of the switch: machine-checked that (d2r_exp a)[j][Dof*i+k] is the derivative of (dr_exp .)[i][j] with respect to a_k, and likewise d2r_expinv for dr_expinv (sin theta <> 0), for all 27+27 entries and both groups - i.e. the hand-expanded Hessian tables are the true second-order derivatives of the coded Jacobians in the documented layout; the closed-form path of each traced function is pinned by a lemma. The regenerated model makes any changed coefficient, sign or slot in either table break an obligation. SE3 (216-entry table), the series branches, the left variants and the generic helpers d_matrix_product / d2_fog are decided by the oracle harness (polynomial maps with exact derivatives; Richardson differences of an independent Jacobian oracle).",
+        note="Trusted: Coq kernel, Coquelicot; translator (validated each run); rounding not modelled. A defect found by this check (SE2 small-angle coefficient -wz/48) was repaired in /repo (fix: eb34743). Known finding C05-K1 (cancellation just above the switch).",
+        design_ref="DESIGN.md section 5 C05",
+    ),
     "C17": dict(
         technique="Coq proof over the regenerated model (ring/field identities, path matching, a proved atan2 library, interval arithmetic for the binary64 value of pi) + translator validation + harness on the real library incl. branch cuts and signed zeros",
         text="Machine-checked for all elements: every traced operation of SE_K_3<1> is the same relation as SE3's (path by path); under the embedding (p1,p2,q)->(v,p,tau=0,q) SE_K_3<2> composition/inverse/identity/Ad/ad/dr_exp/dr_expinv are Galilei's restricted to the zero-time subgroup/subalgebra and exp agrees on the closed-form paths; lift_so3 gives a valid canonical SO3 element with matrix diag(mat g,1) and project_so2 inverts it; C1 = scaling * so2 with scaling>0; rot_x/y/z(t) are valid, canonical and equal the axis rotation matrices for all t; the quaternion constructor normalises, picks q_w>=0 and keeps the direction; angle() in (-pi,pi] reproduces the element, angle_cw() in [-2pi,0] and angle_ccw() in [0,2pi], all congruent mod 2pi (with the code's binary64 pi: slack 2e-15). The model is regenerated every run.",
